@@ -774,7 +774,7 @@ fn main_publish(a: &Args) {
                 });
             }
             // random body lengths
-            let nrand = if thorough { 2000 } else { 60 };
+            let nrand = if thorough { 3000 } else { 60 };
             let p = if *target >= 4096 { *target as usize - 8 } else { 50_000 };
             for _ in 0..nrand {
                 let len = match rng.gen_range(0..10) {
